@@ -51,6 +51,29 @@ def _tiny_grammar():
     return _TG["g"]
 
 
+class ConstantRepresentation(StubRepresentation):
+    """A search space with a single point: every genotype is the integer 0 (equal by value), mutation and crossover
+    can only hand back an equal genotype."""
+
+    def __init__(self):
+        super().__init__(0)
+
+    def _new(self, v):
+        return 0
+
+    def genotype_to_phenotype(self, genotype):
+        from mc.stubrep import StubProgram
+
+        return StubProgram(0)
+
+    def mutate(self, random, genotype, **kwargs):
+        random.randint(0, 0)
+        return 0
+
+    def crossover(self, random, parent1, parent2, **kwargs):
+        return 0, 0
+
+
 class ProxyBudget(SearchBudget):
     def __init__(self, real, ref, log, snap=None):
         self.real, self.ref, self.log, self.snap, self.snaps = real, ref, log, snap, []
@@ -140,6 +163,11 @@ def units(tier, seed):
         for size in (2, 4, 5):
             us.append({"algo": "gp", "n": n, "budget": "eval", "minimize": False, "target": None, "size": size,
                        "step": "elitism+bare-mutation", "max_dev": md, "max_execs": me})
+    # a search space with a single point (a grammar with one tree): the budget is still spent and the search stops
+    for algo, size in (("rs", 1), ("1+1", 1), ("hc", 1), ("hc", 3), ("gp", 2)):
+        for n in (1, 2, 4, 7):
+            us.append({"algo": algo, "n": n, "budget": "eval", "minimize": False, "target": None, "size": size,
+                       "step": "mutation05" if algo == "gp" else None, "max_dev": md, "max_execs": me, "constant_rep": True})
     # the parallel evaluator (its pool replaced by an in-process one): a batch of k individuals counts as k evaluations
     for algo, size in (("hc", 2), ("hc", 4), ("gp", 3), ("rs", 1)):
         for n in (3, 5, 8):
@@ -177,6 +205,8 @@ def run_unit(unit) -> UnitResult:
 
     def run(src):
         rep = StubRepresentation(2)
+        if unit.get("constant_rep"):
+            rep = ConstantRepresentation()
         fit_log = []
 
         values = unit.get("values") or [0.0, 1.0, 2.0]
